@@ -58,6 +58,11 @@ def call (f : St → α × St) : M ρ α := fun s =>
   match f s with
   | (a, s) => (.val a, s)
 
+/-- calling a context function on a temporary context built in place (`&mut HashMapContext::new()`):
+the callee runs on a state of its own (that `HashMapContext`, empty call log); only its result is
+used, the temporary is dropped -/
+def call_fresh (h : HashMapCtx) (f : St → α × St) : α := (f { ctx := .hashMap h, log := [] }).1
+
 class MonadFlow (ρ : outParam Type) (m : Type → Type) where
   liftFlow : Flow ρ α → m α
 
@@ -108,12 +113,26 @@ theorem node_lt {child self : Node} (h : child ∈ self.children) : sizeOf child
 
 def clone (a : α) : α := a
 /-- `Option<&T>::cloned` -/
-def cloned (a : Option α) : Option α := a
+def cloned {φ : Type} (a : φ) : φ := a
+/-- `iter()` on a slice / `Vec` / `HashMap`: an iterator is the list of the items it yields; for a `HashMap` the
+items are the (key, value) pairs in the order of the association list (Rust leaves the order unspecified) -/
+def iter (a : List α) : List α := a
+/-- `HashMap::keys` -/
+def keys (m : List (κ × β)) : List κ := m.map (·.1)
+/-- `std::iter::empty()` -/
+def iter_empty : List α := []
 
 /-- `x.into()` / `T::from(x)`; the target type is fixed by the context -/
 class Into (α β : Type) where
   into : α → β
 export Into (into)
+
+/-- `Default::default()`; the type is fixed by the context -/
+class Default (α : Type) where
+  default : α
+export Default (default)
+/-- `HashMap::default()`, `Vec::default()` -/
+instance : Default (List α) := ⟨[]⟩
 
 /-- `&[T]` → `Vec<T>` -/
 instance : Into (List α) (List α) := ⟨fun a => a⟩
@@ -166,6 +185,8 @@ export Map (map)
 instance : Map Res := ⟨fun r f => Except.map f r⟩
 /-- `Option::map` -/
 instance : Map Option := ⟨fun o f => Option.map f o⟩
+/-- `Iterator::map` -/
+instance : Map List := ⟨fun l f => List.map f l⟩
 
 /-- `Vec::new()` -/
 def Vec.new : List α := []
@@ -173,6 +194,58 @@ def Vec.new : List α := []
 def String.with_capacity (_ : Nat) : Str := []
 /-- `String::push_str` (`&mut self`: the new string) -/
 def push_str (s t : Str) : Str := s ++ t
+
+/-! ### `std` on `i64` / `usize` / `u64`: Int range arithmetic on `Int64.toInt` -/
+
+/-- `i64::checked_add` … : `None` when the exact result does not fit -/
+def i64_checked_add (a b : Int64) : Option Int64 := i64Of (a.toInt + b.toInt)
+def i64_checked_sub (a b : Int64) : Option Int64 := i64Of (a.toInt - b.toInt)
+def i64_checked_mul (a b : Int64) : Option Int64 := i64Of (a.toInt * b.toInt)
+def i64_checked_neg (a : Int64) : Option Int64 := i64Of (-a.toInt)
+def i64_checked_abs (a : Int64) : Option Int64 := i64Of a.toInt.natAbs
+/-- `i64::checked_div`: `None` for a zero divisor and on overflow (`MIN / -1`); truncating division -/
+def i64_checked_div (a b : Int64) : Option Int64 :=
+  if b.toInt == 0 then none else i64Of (a.toInt.tdiv b.toInt)
+/-- `i64::checked_rem`: `None` for a zero divisor and for `MIN % -1` -/
+def i64_checked_rem (a b : Int64) : Option Int64 :=
+  if b.toInt == 0 then none
+  else if a.toInt == -2 ^ 63 && b.toInt == -1 then none
+  else i64Of (a.toInt.tmod b.toInt)
+/-- `BitAnd::bitand`, `BitOr::bitor`, `BitXor::bitxor`, `Not::not` on `i64` -/
+def bitand (a b : Int64) : Int64 := a &&& b
+def bitor (a b : Int64) : Int64 := a ||| b
+def bitxor (a b : Int64) : Int64 := a ^^^ b
+def bitnot (a : Int64) : Int64 := ~~~a
+
+/-- `x as T` between numeric types -/
+class Cast (α β : Type) where
+  cast : α → β
+export Cast (cast)
+/-- `i64 as f64`: nearest float -/
+instance : Cast Int64 Float := ⟨Int64.toFloat⟩
+/-- `f64 as i64`: truncating, saturating, NaN ↦ 0 -/
+instance : Cast Float Int64 := ⟨Float.toInt64⟩
+/-- `i64 as u64`: two's complement reinterpretation -/
+instance : Cast Int64 UInt64 := ⟨Int64.toUInt64⟩
+
+/-- `TryFrom`/`TryInto` between integer types: the error value carries no information -/
+class TryInto (α β : Type) where
+  try_into : α → Except Unit β
+export TryInto (try_into)
+/-- `usize → i64` -/
+instance : TryInto Nat Int64 := ⟨fun n => if n < 2 ^ 63 then .ok (Int64.ofInt n) else .error ()⟩
+/-- `u64 → usize` (64-bit platform: always fits) -/
+instance : TryInto UInt64 Nat := ⟨fun n => .ok n.toNat⟩
+/-- `Result::map_err` -/
+def map_err (r : Except ε α) (f : ε → ε') : Except ε' α :=
+  match r with
+  | .ok a => .ok a
+  | .error e => .error (f e)
+/-- `Option::ok_or_else` -/
+def ok_or_else (o : Option α) (f : Unit → ε) : Except ε α :=
+  match o with
+  | some a => .ok a
+  | none => .error (f ())
 
 /-! ### operators on the primitive types -/
 
